@@ -25,7 +25,11 @@ SPEC = {
                    "approved in the upload config) or are equal to it (to be summed), with distinct counter values "
                    "(10 j + r) and stack counters (names with a newline, 100 j + r; approved by their first line); "
                    "optional leftover "
-                   "local/ready/uploaded reports, stale lock, stray and future-dated *.json; start times at "
+                   "local/ready/uploaded reports, stale lock, stray and future-dated *.json; in 10 % of the scenarios the telemetry directory's path has characters that mean something "
+                   "to glob patterns / regular expressions / shells / URLs ('proj [wip]', 'a*b', 'what?', a backslash, "
+                   "'[a-z]', '{1,2}', '%', space, '$', '#', '+(', '^|'); in 35 % the start times are given on a clock that "
+                   "is not UTC (fixed zones -11 h .. +13 h: only 'today' may be read off that clock, a file's week is the "
+                   "UTC date of its end); start times at "
                    "end-1s, end, end+1ns, end+1s, days and >21 days later; mode on/local with and without an as-of "
                    "date) and 1-3 real uploader.Run calls executed as threads of the deterministic scheduler, one "
                    "os/http call per step ('os' and 'net/http' of internal/upload rewritten to yielding shims in the "
@@ -97,6 +101,7 @@ SPEC = {
                   "build approved, a random subset of counters and stacks approved, sample rate 0). TimeEnd is assumed UTC (library "
                   "written files). Trusted: Coq kernel+VM, extraction, OCaml glue, Go harness, shims vos/vhttp/vsched.",
     "assumptions": [
+        "the start time's zone enters the model as u_zone (seconds east of UTC): today = date of the start instant on that clock; weeks never depend on it",
         "os calls of internal/upload are atomic at the granularity of one call (the model's step); a directory listing is a snapshot",
         "counter.Parse and the RFC3339 span extraction are functions of the file content (their result is data of the model's count files; C06 covers Parse)",
         "count files carry UTC end times (the week string is the UTC date of the end instant)",
